@@ -71,6 +71,31 @@ pub fn s1_full() -> ByteSpace {
     header_space("S1-header-space", (0..=255u8).collect(), HEADER_PTS.to_vec(), 56, vec![0, 1, 3, 4, 8, 255], 3)
 }
 
+/// Longer exactly-framed packets with every value of the last byte (the padding count when P is set): the lengths
+/// where "length minus the fixed part" passes 255, so that a padding check done in 8 bits wraps.
+pub const LONG_LENS: [usize; 18] = [60, 64, 128, 248, 252, 256, 260, 264, 268, 272, 276, 280, 284, 288, 300, 512, 516, 1028];
+pub fn s1_long_padded() -> ByteSpace {
+    let byte0s = [0xA0u8, 0xA1, 0xA2, 0xA4, 0xBF, 0x80];
+    let pts = HEADER_PTS.to_vec();
+    let r = Radix::new(&[byte0s.len() as u64, pts.len() as u64, LONG_LENS.len() as u64, 256, 3]);
+    let rl = r.len();
+    ByteSpace::new("S1-long-packets-every-last-byte", rl, move |idx, out| {
+        let mut c = [0u64; 5];
+        r.decode(idx, &mut c);
+        let n = LONG_LENS[c[2] as usize];
+        out.clear();
+        for i in 0..n {
+            out.push(fill_byte(c[4], i));
+        }
+        out[0] = byte0s[c[0] as usize];
+        out[1] = pts[c[1] as usize];
+        let words = (n / 4 - 1) as u16;
+        out[2] = (words >> 8) as u8;
+        out[3] = words as u8;
+        out[n - 1] = c[3] as u8;
+    })
+}
+
 /// all 256 packet types with a reduced first byte / last byte alphabet
 pub fn s1_all_types() -> ByteSpace {
     header_space(
